@@ -2,7 +2,7 @@
 
 import numpy as np
 
-OCC_CLASSES = ["closed", "rohf", "nearint", "fractional", "aminusb", "aminusb_neg", "aminusb_zero", "none", "empty"]
+OCC_CLASSES = ["closed", "rohf", "nearint", "fractional", "natural_negative", "aminusb", "aminusb_neg", "aminusb_zero", "none", "empty"]
 
 
 def documented_spin_occupations(occs, occs_aminusb):
@@ -51,6 +51,19 @@ def restricted_occupations(rng, norb, occ_class):
         if norb and (occs == np.round(occs)).all():
             occs[0] += 1e-9
         return occs, None
+    if occ_class == "natural_negative":
+        # natural occupations of a correlated response density: a few slightly below 0 or above 2 (and, with an explicit
+        # alpha-minus-beta part, spin occupations below zero)
+        occs = np.sort(rng.uniform(0.0, 2.0, size=norb))[::-1].copy()
+        if norb:
+            occs[0] = 2.0004
+            occs[-1] = -0.0005
+        if norb > 2:
+            occs[-2] = -1.3e-4
+        aminusb = None
+        if rng.random() < 0.5:
+            aminusb = rng.uniform(-0.3, 0.3, size=norb)
+        return occs, aminusb
     if occ_class == "fractional":
         occs = np.sort(rng.uniform(0.0, 2.0, size=norb))[::-1].copy()
         if norb:
